@@ -115,8 +115,8 @@ OP_BASES = ["listItems", "getItem", "createItem", "update_item", "deleteItem", "
 PRIMS = [{"type": "string"}, {"type": "integer"}, {"type": "boolean"}, {"type": "number"}]
 
 
-def _rand_spec(rng: random.Random, *, n_ops=None, tag_mode="any", asynciter_schema=True, hostile=False) -> dict:
-    names = rng.sample(SCHEMA_POOL[:5], rng.randint(1, 3))
+def _rand_spec(rng: random.Random, *, n_ops=None, tag_mode="any", asynciter_schema=True, hostile=False, multi_pair=False) -> dict:
+    names = rng.sample(SCHEMA_POOL[:5], rng.randint(2 if multi_pair else 1, 3))
     if asynciter_schema and rng.random() < 0.35:
         names.append("AsyncIteratorResult")
     schemas = {}
@@ -190,6 +190,17 @@ def _rand_spec(rng: random.Random, *, n_ops=None, tag_mode="any", asynciter_sche
             op["responses"]["404"] = {"description": "nf"}
         method = rng.choice(["get", "post", "put", "patch", "delete"]) if "requestBody" in op else rng.choice(["get", "delete"])
         paths.setdefault(path, {})[method] = op
+    if multi_pair:
+        # several operations of ONE tag client with multiple request media types whose JSON bodies are DIFFERENT schemas
+        # (per-generator state shared between the methods of a class shows up here and nowhere else)
+        for j, n in enumerate(names[:3]):
+            content = {"application/json": {"schema": {"$ref": "#/components/schemas/" + n}},
+                       "multipart/form-data": {"schema": {"type": "object", "properties": {"file": {"type": "string", "format": "binary"}}}}}
+            o = {"operationId": f"uploadPairN{j}", "requestBody": {"required": True, "content": content},
+                 "responses": {"200": {"description": "ok", "content": {"application/json": {"schema": {"$ref": "#/components/schemas/" + n}}}}}}
+            if tag_mode != "none":
+                o["tags"] = ["pairs"]
+            paths[f"/mp{j}"] = {"post": o}
     return {"openapi": "3.0.3", "info": {"title": "T", "version": "1"}, "paths": paths, "components": {"schemas": schemas}}
 
 
@@ -589,7 +600,7 @@ def run(seed: int, scale: float, driver: str) -> dict:
         mg.MockGenerator._transform_to_mock = spy_mock
         try:
             for si in range(n_specs):
-                doc = _rand_spec(rng, hostile=(si % 3 == 2))
+                doc = _rand_spec(rng, hostile=(si % 3 == 2), multi_pair=(si % 3 == 1))
                 err = _generate(doc, os.path.join(sc.dir, f"p{si}"))
                 if err:
                     gen_errors += 1
@@ -974,7 +985,7 @@ def _oracle_doc(rng: random.Random, i: int) -> tuple[dict, str]:
     if i < len(w):
         return w[i], "witness"
     mode = ["single", "any", "single", "any", "none"][i % 5]
-    doc = _rand_spec(rng, tag_mode=mode, asynciter_schema=(i % 2 == 0))
+    doc = _rand_spec(rng, tag_mode=mode, asynciter_schema=(i % 2 == 0), multi_pair=(i % 3 == 1))
     return doc, mode
 
 
